@@ -10,6 +10,8 @@ BoolRes(r, v) == r.t = "b" /\ r.v = v
 \* --------------------------------------------------------------------------
 \* C07
 TryFromFails(a, b, r) ==
+  \* C01: whatever the checked constructor hands out for finite words must be normalised
+  (IF r.t = "tf" /\ a.k = "f" /\ b.k = "f" THEN C01Of(r) ELSE {}) \cup
   IF NoOverlapDef(a, b)
   THEN Chk(r.t = "tf", "C07", "valid_pair_rejected")
        \cup (IF r.t = "tf" THEN Chk(r.x = TF(a, b), "C07", "words_not_preserved") ELSE {})
